@@ -1,5 +1,8 @@
 (** Executable models instantiated with the data of this run (for extraction). *)
 From RV Require Import Model.Base Model.Spirv Model.Decoder.
-From RV Require Import Gen.SpirvData.
+From RV Require Import Model.Module.
+From RV Require Import Gen.SpirvData Gen.TraverseData.
 
 Definition c11_run_case := c11_run enums flags.
+
+Definition c15_eval_case := c15_eval defs.
